@@ -106,6 +106,14 @@ InitProbes ==
     { Probe("field-init", <<Class("K", <<>>, <<>>, <<Def("fld", TRUE, u, Lit(t))>>, <<>>)>>, <<>>, <<Pass>>, InitOK(u, t),
             [declared |-> u, actual |-> t])
       : u \in Tys, t \in Tys }
+  \cup  \* the default of a class argument (def and plain) and of a function parameter is an initialiser as well
+    { Probe("field-init", <<Class("K", <<CArg("p1", isdef, TRUE, u, Lit(t))>>, <<>>, <<>>, <<>>)>>, <<>>, <<Pass>>, InitOK(u, t),
+            [declared |-> u, actual |-> t, where |-> IF isdef THEN "def-class-argument" ELSE "class-argument"])
+      : u \in Tys, t \in Tys, isdef \in BOOLEAN }
+  \cup
+    { Probe("field-init", <<Fun("fd", <<Param("p1", u, Lit(t))>>, "", <<>>, <<PrintS(StrL("f"))>>)>>, <<>>, <<Pass>>, InitOK(u, t),
+            [declared |-> u, actual |-> t, where |-> "parameter"])
+      : u \in Tys, t \in Tys }
 
 \* --- tuple-typed values: a tuple conforms element by element ---------------------------------------------------------
 \* the value arrives TYPED (result of a function declared to return (T1, T2)), flows into a parameter of type (U1, U2), is taken apart
